@@ -1,7 +1,8 @@
 (* C07 — Countdown and staircase timers fire once, on time, and survive a reboot.
    Property theorems only: each is closed by `exact` of a lemma proved in C07/Proofs.v, C07/Once.v or C07/Restart.v.
    `e` selects the variant of supla_esp_countdown_timer_countdown (false: original code, true: the repair
-   docs/fixes/C07_countdown_evaluate_first.diff: evaluate the running slots, then set up the new one and re-arm); the correspondence run uses the variant found in the tree. *)
+   docs/fixes/C07_countdown_evaluate_first.diff + C07_countdown_evaluate_when_registered.diff: once the finish callback is
+   registered, evaluate the running slots, then set up the new one and re-arm); the correspondence run uses the variant found in the tree. *)
 From Coq Require Import List ZArith Bool.
 Import ListNotations.
 From V Require Import Base.Bytes Gen.RelayConsts C07.Model C07.Proofs C07.Once C07.Restart C07.Wrap.
@@ -124,21 +125,23 @@ Proof. exact cancel_full_thm. Qed.
 Print Assumptions C07_cancel_full.
 
 (* Restart, the whole restore loop of supla_esp_gpio_init (boot = user_init order, s = what survives the power loss:
-   clock, flash image, trace).  For a board of at most 8 relays with pairwise different gpios and channels, every relay
-   with a restore flag comes back at its saved level unless the timer re-armed for it has already switched it back
-   during the loop (add = the trace of this boot), and its saved remaining time is armed again with the opposite
-   target, whatever the relays before it did (they cannot use up the slot table, touch its saved bytes or its pin). *)
+   clock, flash image, trace).  For a board (at most 8 relays: wf_cfg) with pairwise different gpios and channels, every
+   relay with a restore flag comes back at its saved level, and its saved remaining time is armed again with the opposite
+   target, whatever the relays before it did (they cannot use up the slot table, touch its saved bytes or its pin).
+   Nothing is evaluated and nothing switches back inside the loop: the finish callback is registered only afterwards
+   (devconn_init), and countdown() evaluates the running slots only once it is (docs/fixes/
+   C07_countdown_evaluate_when_registered.diff; without that guard a timer restored with a few ms left was released
+   inside the loop without its callback, corpus/C07/restored_timer_expires_in_boot.txt). *)
 Theorem C07_restart_restores_all : forall e c s,
-  wf_cfg c -> NoDup (map r_gpio (c_relays c)) -> NoDup (map r_chan (c_relays c)) -> (length (c_relays c) <= 8)%nat ->
+  wf_cfg c -> NoDup (map r_gpio (c_relays c)) -> NoDup (map r_chan (c_relays c)) ->
   TrO s -> 0 <= cnt0 s -> tb s <= now s ->
   let s' := boot e c s in
   NW s' ->
-  exists add, outs s' = add ++ outs s /\
   forall a r, In (a, r) (enum 0 (c_relays c)) -> restoring r = true ->
     let v := getz (fl_relay s) a in
     let T := getz (fl_t2 s) (r_chan r) in
     v = 0 \/ v = 1 ->
-    (pin s' (r_gpio r) = xorb (v =? 1) (hasf (r_flags r) FLAG_LO_LEVEL) \/ newfin (r_chan r) add) /\
+    pin s' (r_gpio r) = xorb (v =? 1) (hasf (r_flags r) FLAG_LO_LEVEL) /\
     (0 < T < 2147483648 ->
      v = 1 \/ (getz (time2 s) (r_chan r) = 0 /\ hasf (chfl_init c r) CHFLAG_COUNTDOWN = true) ->
      exists t0, now s <= t0 <= now s + (a + 1) * (9 * OP) /\ In (GArm t0 (r_chan r) T (1 - v)) (outs s')).
@@ -208,16 +211,15 @@ Proof. intros wr. exact cancel_full_w. Qed.
 Print Assumptions C07_cancel_full_wrap.
 
 Theorem C07_restart_restores_all_wrap : forall (wr : Wraps) e c s,
-  wf_cfg c -> NoDup (map r_gpio (c_relays c)) -> NoDup (map r_chan (c_relays c)) -> (length (c_relays c) <= 8)%nat ->
+  wf_cfg c -> NoDup (map r_gpio (c_relays c)) -> NoDup (map r_chan (c_relays c)) ->
   TrO s -> 0 <= cnt0 s -> tb s <= now s ->
   let s' := boot e c s in
   NWw s' ->
-  exists add, outs s' = add ++ outs s /\
   forall a r, In (a, r) (enum 0 (c_relays c)) -> restoring r = true ->
     let v := getz (fl_relay s) a in
     let T := getz (fl_t2 s) (r_chan r) in
     v = 0 \/ v = 1 ->
-    (pin s' (r_gpio r) = xorb (v =? 1) (hasf (r_flags r) FLAG_LO_LEVEL) \/ newfin (r_chan r) add) /\
+    pin s' (r_gpio r) = xorb (v =? 1) (hasf (r_flags r) FLAG_LO_LEVEL) /\
     (0 < T < 2147483648 ->
      v = 1 \/ (getz (time2 s) (r_chan r) = 0 /\ hasf (chfl_init c r) CHFLAG_COUNTDOWN = true) ->
      exists t0, now s <= t0 <= now s + (a + 1) * (9 * OP) /\ In (GArm t0 (r_chan r) T (1 - v)) (outs s')).
